@@ -236,7 +236,7 @@ func (e *Env) index(base, idx Val) Val {
 		return base.Seq.At(idx.S)
 	case KSlice:
 		et := base.T.Underlying().(*types.Slice).Elem()
-		return e.x.loadElem(e.st, et, base.Arr, app("+", base.Off, idx.S))
+		return e.x.loadElem(e.st, et, base.Arr, e.x.eidx(base.Off, idx.S))
 	case KMapView:
 		if base.Map != nil {
 			return base.Map.Get(idx)
@@ -268,7 +268,7 @@ func (e *Env) toSeq(v Val) Val {
 		st := e.st
 		x := e.x
 		arr, off := v.Arr, v.Off
-		return Val{K: KSeq, Seq: &SeqV{Len: v.Len, Elem: et, At: func(i string) Val { return x.loadElem(st, et, arr, app("+", off, i)) }}}
+		return Val{K: KSeq, Seq: &SeqV{Len: v.Len, Elem: et, At: func(i string) Val { return x.loadElem(st, et, arr, x.eidx(off, i)) }}}
 	}
 	efail("expected a sequence, got %s", describe(v))
 	return Val{}
